@@ -34,8 +34,18 @@ OpStmt(o, i) ==
 Reads(pfx) == << P(pfx \o "s", Var("s")), P(pfx \o "p", Var("p")), P(pfx \o "g", Var("g")), P(pfx \o "i3", IsSetE("x3")),
                  P(pfx \o "ctx", Ctx) >>
 
+\* API calls at the top level of a template executed with a nil VarMap and no := before them
+MkTop(par) ==
+  LET ops == par[3]
+      main == <<T("pre")>> \o [i \in 1..Len(ops) |-> OpStmt(ops[i], i)] \o
+              <<P("zi3", IsSetE("x3")), P("zis", IsSetE("s")), P("zg", Var("g")), T("post")>>
+  IN [ts |-> <<Tm("main", "", <<>>, main)>>, globals |-> [NoVarsMap EXCEPT !["g"] = "glG"],
+      runs |-> <<RunR("main", NoVarsMap, "D")>>, tag |-> "nilvars|" \o PathTag(ops)]
+TopOps == {"Let-x3", "Let-s", "SetOrLet-x3", "SetOrLet-g", "LetGlobal-x3", "Resolve-g", "Resolve-undef", "Context", "Set-undef"}
+
 MkC(par) ==
-  LET path == par[1]  ops == par[2]
+  IF par[1] = "top" THEN MkTop(par) ELSE
+  LET path == par[2]  ops == par[3]
       focal == <<T("f0")>> \o [i \in 1..Len(ops) |-> OpStmt(ops[i], i)] \o Reads("f")
       r     == Build(path, 1, focal)
       main  == <<T("pre"), LetS("ls", "s", Lit("s0"))>> \o r.main \o Reads("z") \o <<T("post")>>
@@ -46,5 +56,6 @@ MkC(par) ==
       tag |-> PathTag(path) \o "|" \o PathTag(ops)]
 
 OpSeqs == UNION {[1..n -> Ops] : n \in 1..2}
-cParams == {p \in PathsUpTo(SiteKinds, Depth) \X OpSeqs : Len(p[1]) <= 1 \/ Len(p[2]) = 1}
+cParams == {p \in {"site"} \X PathsUpTo(SiteKinds, Depth) \X OpSeqs : Len(p[2]) <= 1 \/ Len(p[3]) = 1}
+           \cup ({"top"} \X {<<>>} \X UNION {[1..n -> TopOps] : n \in 1..2})
 =============================================================================
